@@ -28,7 +28,7 @@ tree gives only the reported known-finding signatures, each mutation adds new on
   M4  sql/elements.py    _compile_w_cache: tuple(column_keys) dropped from the cache key  -> +8  (executemany with other keys)
   M5b sql/elements.py    Label._cache_key_traversal: "name" dropped                       -> +32
   M6  sql/elements.py    _FrameClause._traverse_internals: "upper_bind" dropped           -> +4  (cached form hands the wrong ROWS/RANGE bound)
-  M8  sql/elements.py    _compile_w_cache: bool(schema_translate_map) dropped from key    -> caught (see report)
+  M8  sql/elements.py    _compile_w_cache: bool(schema_translate_map) dropped from key    -> +2  (sel[exec_opt=schema_translate] vs sel[])
 Not effective (equivalent mutants, the key is redundant there): "path" dropped from _LoadElement._traverse_internals
 (Load.path still distinguishes), "name" dropped from Label._traverse_internals (Label has its own _cache_key_traversal).
 """
